@@ -166,6 +166,9 @@ func kindOf(t types.Type) tkind {
 	case "sync/atomic.Value":
 		return kRef
 	}
+	if isXCounter(t) {
+		return kAtomic
+	}
 	if tp, ok := t.(*types.TypeParam); ok {
 		_ = tp
 		return kRef
@@ -222,9 +225,23 @@ func sortOf(t types.Type) string {
 	return SInt
 }
 
+// isXCounter: *xsync.Counter. A counter stored in a struct field is modelled as an integer owned by that field
+// (counters are created once per field with NewCounter and never shared: trusted).
+func isXCounter(t types.Type) bool {
+	p, ok := types.Unalias(t).(*types.Pointer)
+	if !ok {
+		return false
+	}
+	n, ok := types.Unalias(p.Elem()).(*types.Named)
+	return ok && n.Obj().Pkg() != nil && strings.HasSuffix(n.Obj().Pkg().Path(), "xsync/v4") && n.Obj().Name() == "Counter"
+}
+
 func intRange(t types.Type) (lo, hi string, ok bool) {
 	b, isb := types.Unalias(t).Underlying().(*types.Basic)
 	if !isb {
+		if isXCounter(t) {
+			return "(- 9223372036854775808)", "9223372036854775807", true
+		}
 		if kindOf(t) == kAtomic {
 			switch namedPath(t) {
 			case "sync/atomic.Int32":
